@@ -21,6 +21,7 @@ THEOREMS = [
     "Verif.C04.by_all_full_windows",
     "Verif.C04.by_by",
     "Verif.C04.by_by_sum",
+    "Verif.C04.by_by_compat",
     "Verif.C04.by_ts_refused",
     "Verif.C04.by_window_spec",
     "Verif.C04.to_is_over",
@@ -78,13 +79,20 @@ RULE = (
     "finds every window from the timestamps, the model answers windows of it at both ends, beyond the end and around "
     "every round source offset: ops c04.bywin / c04.towin) + malformed stream (non-list or empty range lists, rows of wrong length, invalid where/method, "
     "upsampling, variable spacing without force, time-series by, wrong reference kinds, factor 0). Values are integers "
-    "or dyadic rationals (exact in double). Non-trivial: a successful answer with at least one output sample from a "
+    "or dyadic rationals (exact in double). Deepening round D: every second small-scope / random downsampling call leaves out "
+    "the arguments that have their default value; over / by / like are called a second time with a reduce callable that "
+    "records what it is handed (ops c04.overwins, c04.bywins, c04.likewins); self[a:b] for every pair of bounds around small "
+    "sources (c04.getitem); downsampled_by twice for n <= 14, k1, k2 <= 4 and random (c04.byby); references with every "
+    "pattern of 4 periods from {2, 3, 5}; frequencies as Python ints, 0, -0.0, nan, +-inf, negative, huge, tiny and "
+    "arbitrary random floats (the model converts the frequency itself, c04.tof), the conversion alone for every period "
+    "<= 300 (thorough 3000) with its neighbouring doubles (c04.step); negation, scalar operands on both sides, chains "
+    "(a op b) op c (c04.neg, c04.ariths, c04.arith3). Non-trivial: a successful answer with at least one output sample from a "
     "source that holds more samples than the output (so some window reduced several samples or samples were left "
     "out); by: k>=2 and at least one block; arithmetic: at least one sample; malformed stream: a refusal."
 )
 TRUSTED = [
     "values: implementation doubles are converted exactly and compared with the model's exact rational within 1e-9*max(1,|v|) (data are small integers / dyadics, so sums are exact and mean/median/division round once)",
-    "the integer target step int(1e9/frequency) is computed by the harness and handed to the model (the float division is outside the model)",
+    "the Hz -> ns conversion int(1e9/frequency) is done by the model itself, twice: on the same double (Lean Float = IEEE binary64 division, truncation toward zero) and exactly on the rational value of the double (targetOfFreqQ: round to nearest even at 53 bits, then truncation); the driver reports a mismatch between the two; for the long-recording op c04.towin the harness still checks int(1e9/f) == k*dt itself; quotients beyond 2^62 and subnormal quotients are outside the exact model",
     "numpy's treatment of reduce on an empty window in downsampled_like (nan for mean/median, 0 for sum, ValueError for min/max) is canonicalised by the harness, not modelled",
     "timestamps below 2^62 (np.int64 overflow is outside the model)",
     "the period of a downsampled_by result is read through the public Slice.sample_rate (documented data frequency, 1e9/period): round(1e9/rate), exact for periods below 2^51 ns; no private attribute of pylake is read by the harness",
